@@ -555,3 +555,108 @@ def bounded_definition(tier, seed):
 
 BOUNDED = {"C01.definition": bounded_definition}
 PROPERTY_INFO["C01"]["bounded"] = ["C01.definition"]
+
+
+# ---- C14: thread-schedule independence of the prange kernels (syntactic data-flow obligation on the real source) -------
+# numba.prange runs the iterations in an unspecified order on several threads.  The result is independent of the number
+# of threads and of the chunking iff no iteration communicates with another one: every array store in the body is
+# indexed by the loop variable (own slot, proved per kernel under C01/C14 frame obligations) and every scalar the body
+# accumulates into is (re)initialised inside the iteration.  The second half is checked here directly on the AST, so it
+# also holds when a kernel is restructured beyond what the loop-invariant contracts can follow.
+
+
+def _prange_independence(fname):
+    def setup(eng, prop):
+        import ast as _ast
+        from pyvc.engine import State
+
+        mod = eng.module(M)
+        fnode = mod.functions[fname]
+        st = State()
+        eng.cur_state = st
+        loops = [n for n in _ast.walk(fnode) if isinstance(n, _ast.For) and isinstance(n.iter, _ast.Call) and (getattr(n.iter.func, "id", None) in ("prange", "_prange") or getattr(n.iter.func, "attr", None) == "prange")]
+        eng.oblige(st, "frame", "C14.kernel_has_a_prange_loop_over_segments", len(loops) >= 1)
+        for li, loop in enumerate(loops):
+            first = {}
+            stores_ok = True
+            lv = loop.target.id if isinstance(loop.target, _ast.Name) else None
+            for sub in [n_ for b_ in loop.body for n_ in _ast.walk(b_)]:
+                if isinstance(sub, _ast.Assign):
+                    for t_ in sub.targets:
+                        if isinstance(t_, (_ast.Name, _ast.Tuple)):
+                            for nm_ in [x_ for x_ in _ast.walk(t_) if isinstance(x_, _ast.Name)]:
+                                first.setdefault(nm_.id, ("assign", sub.lineno))
+                        elif isinstance(t_, _ast.Subscript):
+                            # an array store in the parallel body must address the iteration's own slot
+                            idx = t_.slice
+                            own = isinstance(idx, _ast.Name) and idx.id == lv
+                            local = isinstance(t_.value, _ast.Name) and t_.value.id in first
+                            stores_ok = stores_ok and (own or local)
+                elif isinstance(sub, _ast.AugAssign) and isinstance(sub.target, _ast.Name):
+                    first.setdefault(sub.target.id, ("aug", sub.lineno))
+                elif isinstance(sub, _ast.AugAssign) and isinstance(sub.target, _ast.Subscript):
+                    idx = sub.target.slice
+                    own = isinstance(idx, _ast.Name) and idx.id == lv
+                    local = isinstance(sub.target.value, _ast.Name) and sub.target.value.id in first
+                    stores_ok = stores_ok and (own or local)
+                elif isinstance(sub, _ast.For) and isinstance(sub.target, _ast.Name):
+                    first.setdefault(sub.target.id, ("assign", sub.lineno))
+            shared = sorted(k_ for k_, (how_, ln_) in first.items() if how_ == "aug")
+            eng.oblige(st, "frame", f"C14.prange_body_has_no_cross_iteration_accumulator[loop {li}]", not shared, {"shared": shared})
+            eng.oblige(st, "frame", f"C14.prange_body_stores_only_to_its_own_slot[loop {li}]", bool(stores_ok))
+
+    return setup
+
+
+for _k in ("_stats_win_only_auto", "_stats_win_only_csd", "_stats_detrend0_auto", "_stats_detrend0_csd", "_stats_poly_auto", "_stats_poly_csd"):
+    UNITS.append(Unit(id=f"core.{_k}[prange-independence]", module=M, func=_k, props=["C14"], kind="lemma", setup=_prange_independence(_k), opts={"callee": False}))
+
+
+def bounded_threads(tier, seed):
+    """C14 (bounded): the same analysis with 1, 2, 3, 4 and all worker threads (and different parallel chunk sizes) gives
+    bit-identical statistics - full and single-bin analyses, all orders, auto and cross, Numba backend"""
+    import numpy as np
+    import numba
+    from speckit import SpectrumAnalyzer
+
+    rng = np.random.default_rng(seed)
+    fails, n = [], 0
+    N = 20000
+    t = np.arange(N) / 100.0
+    x = 3 * np.sin(2 * np.pi * 3.125 * t) + 1e-6 * rng.normal(size=N)
+    y = 0.5 * x + rng.normal(size=N)
+    nmax = numba.config.NUMBA_NUM_THREADS
+    keep = numba.get_num_threads()
+    try:
+        for order in (-1, 0, 1, 2):
+            for cross in (False, True):
+                ref = None
+                for nt in sorted({1, 2, 3, min(4, nmax), nmax}):
+                    if nt > nmax:
+                        continue
+                    for chunk in (0, 1, 5) if tier == "thorough" else (0, 5):
+                        numba.set_num_threads(nt)
+                        try:
+                            numba.set_parallel_chunksize(chunk)
+                        except Exception:
+                            pass
+                        an = SpectrumAnalyzer([x, y] if cross else x, 100.0, olap=0.5, Jdes=30, Kdes=40, order=order, win="hann", scheduler="ltf", backend="numba")
+                        r = an.compute()
+                        b = an.compute_single_bin(3.125, L=2048)
+                        got = (np.array(r.XX), np.array(r.YY), np.array(r.XY), np.array(r._data["M2"]), np.array(b.XX), np.array(b._data["M2"]))
+                        n += 1
+                        if ref is None:
+                            ref = got
+                        elif not all(np.array_equal(a_, b_) for a_, b_ in zip(ref, got)):
+                            fails.append({"label": "C14.thread_count", "input": {"order": order, "cross": cross, "threads": nt, "chunksize": chunk}, "detail": "statistics differ from the single-thread run"})
+    finally:
+        numba.set_num_threads(keep)
+        try:
+            numba.set_parallel_chunksize(0)
+        except Exception:
+            pass
+    return {"evaluations": n, "bound": f"threads in 1..{nmax}, chunk sizes 0/5 (0/1/5 thorough), orders -1..2, auto and cross, N=20000", "failures": fails[:5], "n_failures": len(fails)}
+
+
+BOUNDED["C14.threads"] = bounded_threads
+PROPERTY_INFO["C14"]["bounded"] = list(PROPERTY_INFO["C14"].get("bounded", [])) + ["C14.threads"]
